@@ -244,6 +244,13 @@ def _find_files(env, filter, seen_dirs=None):
     for p in paths:
         yield p, filter.match(p)
     for p in paths:
+        if seen_dirs is not None and not _path.exists(p, env.base_dirs):
+            # The directory to search doesn't exist (yet): watch the closest
+            # one that does, so that we notice when it gets created.
+            parent = p
+            while parent.suffix and not _path.exists(parent, env.base_dirs):
+                parent = parent.parent()
+            seen_dirs.append(parent)
         for base, dirs, files in _path.walk(p, env.base_dirs):
             if seen_dirs is not None:
                 seen_dirs.append(base)
